@@ -7,9 +7,11 @@ TIE_EXTRA = {
         "vo": "proofs/GenTensorBuild_equiv.vo",
         "theorems": ["gen_coordinates_to_tree_ok", "gen_arrays_ok", "gen_validate_equiv", "gen_from_aos_equiv",
                      "gen_from_aos_general", "gen_from_dok_equiv", "gen_from_soa_equiv", "gen_from_lol_equiv",
-                     "gen_items_equiv", "gen_to_dok_equiv", "gen_roundtrip_full"],
+                     "gen_items_equiv", "gen_to_dok_equiv", "gen_roundtrip_full",
+                     "gen_taco_indices_equiv", "gen_taco_vals_equiv", "gen_getstate_equiv", "gen_setstate_equiv",
+                     "gen_pickle_roundtrip_equiv", "gen_to_format_equiv", "gen_to_format_preserves"],
         "source": "tensor.py (coordinates_to_tree, tree_to_indices_and_values, Tensor.from_aos/from_dok/from_soa/from_lol, "
-                  "lol_to_coordinates_and_values, Tensor.items, Tensor.to_dok), compile/_cffi_ownership.py (validation), "
+                  "lol_to_coordinates_and_values, Tensor.items, Tensor.to_dok, taco_indices, taco_vals, __getstate__, __setstate__, to_format), compile/_cffi_ownership.py (validation), "
                   "format/_format.py (Mode, Format)",
         "model": "coq/model/TensorBuild.v (build, from_aos/from_dok/from_soa/from_lol, validate, emit, to_dok), spec/Storage.v (entries)",
     },
